@@ -113,7 +113,7 @@ def _instantiate(ctx: Ctx, f: Func, call: ast.Call, want_value: bool) -> Optiona
     return mod.body
 
 
-def inline_delegation(ctx: Ctx, f: Func, fn: ast.FunctionDef) -> bool:
+def inline_delegation(ctx: Ctx, f: Func, fn: ast.FunctionDef, whole_only: bool = False) -> bool:
     """`return self._m(args)` (a tail call of a private helper of the object, a local function or a module helper)
     -> the helper's body: its returns become the caller's returns.  A helper that can fall off its end gets an explicit
     `return None` appended."""
@@ -137,7 +137,7 @@ def inline_delegation(ctx: Ctx, f: Func, fn: ast.FunctionDef) -> bool:
                 c = st.value
                 name = c.func.attr if isinstance(c.func, ast.Attribute) else (c.func.id if isinstance(c.func, ast.Name) else "")
                 whole = len(_strip_doc(list(fn.body))) == 1
-                if (name.startswith("_") and not name.startswith("__")) or whole:
+                if whole or (not whole_only and name.startswith("_") and not name.startswith("__")):
                     m = _callee(ctx, f, c)
                     # a tail call inside try would move the helper's body under the handlers: only outside try
                     new = _instantiate(ctx, f, c, want_value=True) if m is not None and not _inside_try(fn, st) else None
@@ -626,7 +626,7 @@ def expand_list_comprehensions(fn: ast.FunctionDef) -> bool:
     return changed
 
 
-def normalised(ctx: Ctx, f: Func, steps: str = "delegation,calls,unroll,quant,beta,getattr,temps,predicate") -> Func:
+def normalised(ctx: Ctx, f: Func, steps: str = "delegation,tailcalls,calls,unroll,quant,beta,getattr,temps,predicate") -> Func:
     """A synthetic Func whose body is `f`'s body after the listed rewrites (cached per ctx)."""
     cache = ctx.__dict__.setdefault("_normalised", {})
     key = (id(f), steps)
@@ -637,8 +637,8 @@ def normalised(ctx: Ctx, f: Func, steps: str = "delegation,calls,unroll,quant,be
     changed = False
     for _ in range(3):
         round_changed = False
-        if "delegation" in want:
-            round_changed |= inline_delegation(ctx, f, fn)
+        if "delegation" in want or "tailcalls" in want:
+            round_changed |= inline_delegation(ctx, f, fn, whole_only="tailcalls" not in want)
         if "calls" in want:
             round_changed |= inline_call_statements(ctx, f, fn)
         if "valuecalls" in want:
